@@ -279,8 +279,11 @@ class Verifier:
                 ctx.assume(it.truth(calls.run_inv(it, cc, bound['self'])))
             for name, rfn in c.requires:
                 ctx.assume(it.truth(calls.eval_clause(it, rfn, ns)))
-            ctx.entry = V.clone_value(dict(bound), {}) if False else \
-                {k: V.clone_value(v, {}) for k, v in bound.items()}
+            ctx.entry = {k: V.clone_value(v, {}) for k, v in bound.items()
+                         if not (c.params_from_ghosts is not None)}
+            for gk, gv in joint.items():
+                if gk.startswith('ghost_'):
+                    ctx.entry[gk] = V.clone_value(gv, {})
             old = calls.make_old(it, bound)
             ns['old'] = old
             ns_old = dict(old.fields)
